@@ -19,7 +19,7 @@ func VerifProbeConstructs3() {
 	verifnd.Assert(time.Until(t0) <= 0, "probe3.until")
 	dl := t0.Add(time.Minute)
 	verifnd.Assert(dl.After(t0) && dl.Sub(t0) == time.Minute, "probe3.add_sub")
-	verifnd.Assert(time.Duration(1500)*time.Millisecond == 1500*time.Millisecond && (2 * time.Second).Seconds() == 2, "probe3.duration")
+	verifnd.Assert(time.Duration(1500)*time.Millisecond == 1500*time.Millisecond && (2*time.Second).Seconds() == 2, "probe3.duration")
 	select {
 	case <-time.After(time.Hour):
 		verifnd.Assert(false, "probe3.after_not_elapsed")
